@@ -191,12 +191,12 @@ FILTERS = {"-": "", "o": " if x is odd", "e": " if x is even", "n": " if x > 100
 
 
 PRELUDES = ["", "{% macro mm(loop) %}{% endmacro %}", "{% with loop = 5 %}{% endwith %}",
-            "{% macro mm(a, loop=1) %}{{ loop }}{% endmacro %}", "{% call(loop) mm2() %}{% endcall %}"]
+            "{% macro mm(a, loop=1) %}{{ loop }}{% endmacro %}", "{% macro mm2() %}{{ caller(1) }}{% endmacro %}{% call(loop) mm2() %}{% endcall %}"]
 
 
-def template_source(script, flt, prelude=0):
+def template_source(script, flt, prelude=0, scoped_wrap=False):
     """prelude: a nested scope that stores a name `loop` of its own BEFORE the loop variable is used"""
-    body = PRELUDES[prelude] if prelude < 4 else PRELUDES[prelude]
+    body = PRELUDES[prelude]
     branches = []
     for i, qs in enumerate(script):
         if qs:
@@ -205,6 +205,10 @@ def template_source(script, flt, prelude=0):
         body += ("{% if" if j == 0 else "{% elif") + f" loop.index0 == {i} %}}" + txt
     if branches:
         body += "{% endif %}"
+    if scoped_wrap and branches:
+        # the only mentions of `loop` sit in a scoped block that is not a direct child of the loop body
+        chain = body[len(PRELUDES[prelude]):]
+        body = PRELUDES[prelude] + "{% if 1 %}{% block qq scoped %}" + chain + "{% endblock %}{% endif %}"
     return "{% for x in xs" + FILTERS[flt] + " %}{{ x }}:" + body + "|{% else %}ELSE{% endfor %}"
 
 
@@ -475,7 +479,7 @@ def run(ctx):
             case = {"idx": idx, "via": "LoopContext", "iterable": kind, "items": xs, "script": script, "depth0": d0}
             judge(case, SIZED[kind], ("s", kind, tuple(xs), enc_script(script)) if nontrivial(SIZED[kind], script) else None, real)
             ctx.count("drive_sync_" + kind)
-        for kind in ("list", "tuple", "iter", "gen", "agen"):
+        for kind in ("list", "tuple", "iter", "gen", "agen") + (("onlyiter",) if idx % 3 == 0 else ()):
             async_jobs.append((idx, kind, xs, script, d0))
 
     async def all_async():
@@ -503,15 +507,15 @@ def run(ctx):
         xs, script = pool[ctx.rng.randrange(len(pool))] if j % 3 else pool[j % len(pool)]
         flt = ctx.rng.choice(["-", "-", "o", "e", "n"])
         mode = "async" if j % 2 else "sync"
-        kind = ctx.rng.choice(["list", "tuple", "iter", "gen"] + (["agen"] if mode == "async" else []))
+        kind = ctx.rng.choice(["list", "tuple", "iter", "gen", "onlyiter"] + (["agen"] if mode == "async" else []))
         tcases.append({"via": "template/" + mode, "iterable": kind, "items": xs, "script": script, "filter": flt, "depth0": 0,
-                       "prelude": ctx.rng.choice([0, 0, 0, 1, 2, 3, 4])})
+                       "prelude": ctx.rng.choice([0, 0, 0, 1, 2, 3, 4]), "scoped_wrap": ctx.rng.random() < 0.2})
     tlines = [line_L("U" if c["filter"] != "-" else SIZED[c["iterable"]], c["filter"], 0, c["items"], c["script"]) for c in tcases]
     tout = ctx.driver("loop", tlines)
     for c, ln in zip(tcases, tout):
         m, s = ln[2:].split(" S ", 1)
         mode = c["via"].split("/")[1]
-        src = template_source(c["script"], c["filter"], c["prelude"])
+        src = template_source(c["script"], c["filter"], c["prelude"], c["scoped_wrap"])
         try:
             t = envs[mode].from_string(src)
             data = MAKE[c["iterable"]](c["items"])
@@ -699,7 +703,7 @@ def replay(ctx, data):
             env, src = envs[mode], nested_template_source(case["script"][0], case["place"], flt)
             norm = lambda o: norm_template_output(o.replace(";|", "|"))  # noqa
         else:
-            env, src, norm = envs[mode], template_source(case["script"], flt, case.get("prelude", 0)), norm_template_output
+            env, src, norm = envs[mode], template_source(case["script"], flt, case.get("prelude", 0), case.get("scoped_wrap", False)), norm_template_output
         print("template:", src)
         t = env.from_string(src)
         dat = MAKE[case["iterable"]](case["items"])
